@@ -588,4 +588,39 @@ theorem term_observe_example :
     (termObserve [0] (build .repaired) 1 true).2.blocked = [28] ∧
     (raiseSig (termObserve [0] (build .repaired) 1 true).2 28).kpending = [28] := by decide +kernel
 
+/-! ### signals the application had blocked when the instance was built (round 7) -/
+
+/-- `evloop_init` starts the mask it hands to `ppoll` empty (`sigemptyset(&evdata->defmask)`) and nothing adds to it:
+    whatever the process-wide mask holds - signals the loop blocked for its watchers, signals the application had
+    blocked itself before it built the instance - a wait that finds no descriptor ready is interrupted by every signal
+    pending in the kernel; it fails with EINTR, the handler has recorded the signal in this loop's pending set and
+    nothing stays pending.  No hypothesis about `st.blocked`. -/
+theorem ppoll_delivers_whatever_is_blocked (st : St) (t : Option Int)
+    (hok : st.isOk = true) (hin : st.inpoll = []) (hc : pollCount st = 0) (ho : st.observer = .self)
+    (s : Int) (hs : s ∈ st.kpending) :
+    (ppoll st t).2 = none ∧ (ppoll st t).1.errno = EINTR ∧ s ∈ (ppoll st t).1.pendingSig ∧ (ppoll st t).1.kpending = [] := by
+  have hr : pollRaise (pollScan st) = { pollScan st with inpoll := [] } := by
+    unfold pollRaise
+    have : (pollScan st).inpoll = [] := hin
+    rw [this]; rfl
+  have hk : (pollRaise (pollScan st)).kpending = st.kpending := by rw [hr]; rfl
+  have hok' : (pollRaise (pollScan st)).isOk = true := by rw [hr]; exact hok
+  have hne : (pollRaise (pollScan st)).kpending.isEmpty = false := by
+    rw [hk]; cases hl : st.kpending with
+    | nil => rw [hl] at hs; cases hs
+    | cons a l => rfl
+  have h2 : (ppoll st t).2 = none := by
+    unfold ppoll
+    rw [if_neg (by simp [hok']), if_neg (by omega), if_pos (by simp [hne])]
+  have h := ppoll_eintr st t ho h2
+  exact ⟨h2, h.1, h.2.2 s (by rw [hk]; exact hs), h.2.1⟩
+
+/-- Non-vacuity: the application had SIGUSR1 (10) blocked when the instance was built, then watches it; a delivery
+    before the iteration stays pending, meets the hypotheses above and reaches the watcher in that iteration. -/
+theorem blocked_by_application_example :
+    let st0 : St := { build .repaired with blocked := [10, 28] }
+    let st := applyOp (applyOp st0 (.act (.signal 0 10 0))) (.act (.raise 10))
+    st.blocked = [10, 28] ∧ st.kpending = [10] ∧ st.inpoll = [] ∧ pollCount st = 0 ∧ st.observer = .self ∧ st.isOk = true ∧
+    cbLog (applyOp st .tick) = [.cb 0 1 .none] := by decide +kernel
+
 end Tickit.Props.C18
